@@ -144,7 +144,40 @@ def check(ctx, rep):
             guard = (bb, t_t, f_t, "round < count required")
         elif n == ("Gt", S("round"), S("cc")):
             guard = (bb, None, t_t, "round > count => None (round == count passes)")
-    if not idx_blocks:
+    pipe = util.option_pipeline(ctx, se, se.ret) if not idx_blocks else None
+    if pipe is not None:
+        # Some(round).filter(round < count).map(coordinates[round]).map((c % w, c / w)).filter(y < h)
+        v0, steps = pipe
+        seen_guard = False
+        idx_ok = dec_ok = row_ok = False
+        cterm = None
+        for kind, tm in steps:
+            e1 = dict(env)
+            if cterm is not None:
+                e1[cterm] = "c"
+            n = arith.norm(tm, e1)
+            if kind == "guard" and n == ("Lt", S("round"), S("cc")):
+                seen_guard = True
+            elif kind == "value" and cterm is None:
+                x = strip(tm)
+                is_idx = (util.is_call(x) and x[1].endswith("::index") and canon(ctx, se, x[2][0]) == vf("coords") and arith.norm(x[2][1], env) == S("round")) or (x[0] == "index" and strip(x[1]) == vf("coords") and arith.norm(x[2], env) == S("round"))
+                if is_idx:
+                    idx_ok = seen_guard      # the lookup runs only behind the guard
+                    cterm = x
+            elif kind == "value" and cterm is not None:
+                x = strip(tm)
+                if x[0] == "agg" and x[1] == "tuple" and len(x[4]) == 2:
+                    e2 = dict(env)
+                    e2[cterm] = "c"
+                    dec_ok = arith.norm(x[4][0], e2) == ("rem", S("c"), S("w")) and arith.norm(x[4][1], e2) == ("Div", S("c"), S("w"))
+            elif kind == "guard" and cterm is not None and n in (("Lt", ("Div", S("c"), S("w")), S("h")), ("Lt", ("fld", ("arr", (("rem", S("c"), S("w")), ("Div", S("c"), S("w")))), 1), S("h"))):
+                row_ok = dec_ok
+        rep.check(strip(v0) == ("param", 2) and idx_ok, "round-guard", fn, "bound", "coordinates[round] only behind filter(round < challenge_count); otherwise None", "the lookup coordinates[round] is not guarded by round < challenge_count in the Option pipeline", body.loc())
+        rep.check(dec_ok and row_ok, "round-guard", fn, "decode", "c = coordinates[round]; x = c mod width, y = c / width; y >= height => None", "coordinate decoding is not (c mod width, c / width) with rows outside the card refused", body.loc())
+        idx_blocks = None
+    if idx_blocks is None:
+        pass
+    elif not idx_blocks:
         rep.violation("round-guard", fn, "bound", "no indexing of the coordinate list found", body.loc())
     elif guard is None:
         rep.violation("round-guard", fn, "bound", "no comparison of the round with challenge_count guards coordinates[round]", body.loc())
@@ -156,6 +189,8 @@ def check(ctx, rep):
         rep.check(good and good_none, "round-guard", fn, "bound", "coordinates[round] only under round < challenge_count; otherwise None", "the guard before coordinates[round] is `%s`: for round == challenge_count the index is out of bounds (panic) instead of None" % desc, body.loc(gb))
     # decoding x = c % w, y = c / w, y >= h => None
     good = False
+    if pipe is not None:
+        algos_done = True
     ret_phi = se.ret
     somes = [(bi, si) for bi, si, s in util.blocks_constructing(body, "std::option::Option", "Some")]
     if len(somes) == 1:
@@ -184,7 +219,8 @@ def check(ctx, rep):
                     elif n == ("Lt", ("Div", S("c"), S("w")), S("h")):
                         hg = (bb, t_t)
                 good = good and hg is not None and cfg.must_pass_edge(body, hg, somes[0][0])
-    rep.check(good, "round-guard", fn, "decode", "c = coordinates[round]; x = c mod width, y = c / width; y >= height => None", "coordinate decoding is not (c mod width, c / width) with rows outside the card refused", body.loc())
+    if pipe is None:
+        rep.check(good, "round-guard", fn, "decode", "c = coordinates[round]; x = c mod width, y = c / width; y >= height => None", "coordinate decoding is not (c mod width, c / width) with rows outside the card refused", body.loc())
     # ---------------- (e) distinct coordinates: the selection is the draw-without-replacement scheme
     from rules import algos
 
